@@ -9,6 +9,9 @@ import (
 	"fmt"
 	"math/big"
 	"os"
+	"os/exec"
+	"path/filepath"
+	"runtime"
 	"sort"
 	"strings"
 	"testing"
@@ -71,12 +74,50 @@ func (n *node) cleanup() {
 	}
 }
 
+// listing describes every file below dir (path, size, modification time).
+func listing(dir string) string {
+	var out []string
+	_ = filepath.Walk(dir, func(p string, info os.FileInfo, err error) error {
+		if err != nil || info == nil {
+			out = append(out, p+":?")
+			return nil
+		}
+		if !info.IsDir() {
+			out = append(out, fmt.Sprintf("%s:%d:%d", p, info.Size(), info.ModTime().UnixNano()))
+		}
+		return nil
+	})
+	sort.Strings(out)
+	return strings.Join(out, "\n")
+}
+
+// stableCopy byte-copies a live data directory at one instant: goleveldb compacts in background
+// goroutines (new table, manifest record, deletion of the old tables), so a copy is only accepted when the
+// directory listing (names, sizes, modification times) is the same before and after it was taken.
+func stableCopy(src, tag string) (string, error) {
+	dst := sim.NewScratchDir(tag)
+	var lastErr error
+	for attempt := 0; attempt < 20; attempt++ {
+		before := listing(src)
+		_ = os.RemoveAll(dst)
+		out, err := exec.Command("cp", "-r", src, dst).CombinedOutput()
+		after := listing(src)
+		if err == nil && before == after {
+			return dst, nil
+		}
+		lastErr = fmt.Errorf("attempt %d: %v %s (directory changed during the copy: %v)", attempt, err, strings.TrimSpace(string(out)), before != after)
+		runtime.Gosched()
+	}
+	_ = os.RemoveAll(dst)
+	return "", lastErr
+}
+
 // crash kills the current incarnation (byte copy of the data directory as the OS sees it now, the
 // tx index as of the last completed commit), starts a new application on the copy through the
 // real Prepare(), and does what Tendermint's handshake does first: Info (and InitChain when the
 // application reports height 0).
 func (n *node) crash(where string, a *sim.Replica) *outcome {
-	dir, err := n.r.CrashImage(fmt.Sprintf("b%d", n.gen+1))
+	dir, err := stableCopy(n.r.Dir, fmt.Sprintf("b%d", n.gen+1))
 	if err != nil {
 		return &outcome{"harness", "", "crash image: " + err.Error()}
 	}
@@ -718,6 +759,10 @@ func TestC08(t *testing.T) {
 		h.Eval(ntKey, classes, tr.Summary())
 		h.Class("crashes", st.crashes)
 		h.Class("blocks", st.blocks)
+		if out != nil && out.oracle == "harness" {
+			h.Class("harness-inconclusive-case", 1) // the harness could not set the case up (e.g. no stable copy): not a verdict
+			return
+		}
 		if out != nil {
 			h.Fail(rt, out.oracle, "C08/"+out.oracle+"/"+out.class, tr, "%s", out.msg)
 		}
